@@ -4,6 +4,7 @@ package main
 import (
 	"encoding/json"
 	"os"
+	"runtime/debug"
 	"sort"
 
 	"github.com/jub0bs/cors/internal/zzverif/vlib"
@@ -15,6 +16,7 @@ type check func(c *vlib.Ctx) (level, rule string)
 var registry = map[string]check{}
 
 func main() {
+	debug.SetGCPercent(800) // enumeration produces short-lived garbage only; fewer collections, better scaling
 	c := vlib.NewCtx()
 	f := registry[c.Prop]
 	if f == nil {
